@@ -300,8 +300,20 @@ fn ref_native_script(s: u64) -> NativeScript {
     }
 }
 fn script_ref_outpoint(native: bool, s: u64, variant: u64) -> TransactionInput { ref_outpoint(if native { 42 } else { 41 }, s * 2 + variant % 2) }
-fn ref_plutus_source(s: u64, variant: u64) -> PlutusScriptSource {
-    PlutusScriptSource::new_ref_input(&ref_plutus_script(s).hash(), &script_ref_outpoint(false, s, variant), &Language::new_plutus_v2(), s as usize)
+/// signers DECLARED on a Plutus script source that sits in a reference input (set_required_signers): keys nothing else in
+/// the scenarios requires (200.., 300..); they must sign, so the builder has to count them
+fn ref_plutus_declared(id: u64) -> Vec<u64> {
+    match id % 3 { 0 => vec![200 + id % 7], 1 => vec![200 + id % 7, 210 + id % 5], _ => vec![] }
+}
+fn wd_ref_declared(a: u64) -> Vec<u64> { if a % 2 == 1 { vec![300 + a] } else { vec![] } }
+fn ref_plutus_source(s: u64, variant: u64, declared: &[u64]) -> PlutusScriptSource {
+    let mut src = PlutusScriptSource::new_ref_input(&ref_plutus_script(s).hash(), &script_ref_outpoint(false, s, variant), &Language::new_plutus_v2(), s as usize);
+    if !declared.is_empty() {
+        let mut ks = Ed25519KeyHashes::new();
+        for k in declared { ks.add(&kh(*k)); }
+        src.set_required_signers(&ks);
+    }
+    src
 }
 fn ref_native_source(s: u64, variant: u64) -> NativeScriptSource {
     let mut src = NativeScriptSource::new_ref_input(&ref_native_script(s).hash(), &script_ref_outpoint(true, s, variant), s as usize);
@@ -317,8 +329,8 @@ fn plutus_witness(u: &U) -> PlutusWitness {
     match u.kind {
         3 => PlutusWitness::new_without_datum(&plutus_script(u.id), &red),
         4 => PlutusWitness::new(&plutus_script(u.id), &witness_datum(u.id), &red),
-        5 => PlutusWitness::new_with_ref_without_datum(&ref_plutus_source(u.refsize, u.id), &red),
-        6 => PlutusWitness::new_with_ref(&ref_plutus_source(u.refsize, u.id), &DatumSource::new(&witness_datum(u.id)), &red),
+        5 => PlutusWitness::new_with_ref_without_datum(&ref_plutus_source(u.refsize, u.id, &ref_plutus_declared(u.id)), &red),
+        6 => PlutusWitness::new_with_ref(&ref_plutus_source(u.refsize, u.id, &ref_plutus_declared(u.id)), &DatumSource::new(&witness_datum(u.id)), &red),
         7 => PlutusWitness::new_without_datum(&ref_plutus_script(u.refsize), &red),
         _ => PlutusWitness::new(&ref_plutus_script(u.refsize), &witness_datum(u.id), &red),
     }
@@ -815,7 +827,7 @@ fn run_op(w: &mut World, op: &Op, last_tx: &mut Option<Transaction>) -> OpRec {
                             61..=71 => {
                                 let red = Redeemer::new(&RedeemerTag::new_reward(), &b64(0), &PlutusData::new_integer(&BigInt::from_str(&a.to_string()).unwrap()),
                                     &ExUnits::new(&b64(*a * 1000), &b64(*a * 1_000_000)));
-                                let src = ref_plutus_source(WDREF[(*a - 61) as usize], 0);
+                                let src = ref_plutus_source(WDREF[(*a - 61) as usize], 0, &wd_ref_declared(*a));
                                 b.add_with_plutus_witness(&addr, c, &PlutusWitness::new_with_ref_without_datum(&src, &red)).expect("Plutus reward address (by reference)")
                             }
                             _ => b.add(&addr, c).expect("key reward address"),
@@ -954,6 +966,7 @@ fn signed_figures(w: &World, tx: &Transaction) -> String {
             1 => { boots.insert(id % 9); }
             2 => { keys.extend(utxo_native_keys(id)); }
             9 => { keys.extend(ref_native_keys(u.refsize)); }
+            5 | 6 => { keys.extend(ref_plutus_declared(id)); }
             _ => {}
         }
     };
@@ -973,7 +986,14 @@ fn signed_figures(w: &World, tx: &Transaction) -> String {
     if let Some(cs) = body.certs() { for i in 0..cs.len() { if let Some(k) = cert_witness_cred(&cs.get(i)).and_then(|c| cred_key(&c)) { keys.insert(k); } } }
     if let Some(ws) = body.withdrawals() {
         let ks = ws.keys();
-        for i in 0..ks.len() { if let Some(k) = cred_key(&ks.get(i).payment_cred()) { keys.insert(k); } }
+        for i in 0..ks.len() {
+            let cred = ks.get(i).payment_cred();
+            if let Some(k) = cred_key(&cred) { keys.insert(k); }
+            // a Plutus withdrawal by reference: the signers declared on its script source
+            if let Some(h) = cred.to_scripthash() {
+                if let Some(a) = (61u64..=71).find(|a| ref_plutus_script(WDREF[(*a - 61) as usize]).hash() == h) { keys.extend(wd_ref_declared(a)); }
+            }
+        }
     }
     if let Some(m) = body.mint() {
         let ps = m.keys();
